@@ -45,6 +45,11 @@ def abscissa(rng, n, zmax, zmin, law):
         u = np.linspace(0, 1, n)
         du = 1 / (n - 1)
         u[1:-1] += rng.uniform(-.4, .4, n - 2) * du
+    elif law == "jitter2":
+        # jitter larger than the sample spacing: non-monotonic abscissa
+        u = np.linspace(0, 1, n)
+        du = 1 / (n - 1)
+        u[1:-1] += rng.uniform(-.9, .9, n - 2) * du
     else:  # quadratic: denser near the far end
         u = np.linspace(0, 1, n) ** 2
     return zmax + (zmin - zmax) * u
